@@ -71,6 +71,7 @@ def build_pools(ck, tier, rnd, langs=gen.LANGS, tag="x"):
         pools[lang] = list(ts)
         pairs += [(lang, t) for t in sorted(set(ts))]
         pairs += [(lang, t) for t in gen.ADVERSARIAL]
+        pairs += [(lang, t) for t in gen.SPECIAL_TITLES if t not in ts]
         # single words as titles (exact-prefix clause)
     d = os.path.join(OUT, "work", "pre_%s_%d" % (tag, os.getpid()))       # private to this run: checks may run side by side
     os.makedirs(d, exist_ok=True)
@@ -672,6 +673,17 @@ def cases_for(prop, tier, seed, pools, toks, ck):
             cases += gen.gen_table_store_cases(lang, rnd, "C11")
     else:
         raise ToolError("no plan for %s" % prop)
+    if prop in ("C03", "C13", "C14"):
+        # the special shapes (every regime the seeding rounds taught us) are not left to the draw: each special title is
+        # taken once in the language it belongs to and once in a language that rotates with the seed
+        fam = {"C03": gen.gen_prefix_cases, "C13": gen.gen_whole_pair_cases, "C14": gen.gen_split_join_cases}[prop]
+        by_lang = {}
+        for i, t in enumerate(gen.SPECIAL_TITLES):
+            if t.strip():
+                by_lang.setdefault(gen.natural_lang(t), []).append(t)
+                by_lang.setdefault(L[(i + seed) % len(L)], []).append(t)
+        for lang, ts_ in sorted(by_lang.items()):
+            cases += fam(lang, rnd, pools[lang], toks, 0, targets=ts_)
     if prop in ("C03", "C04", "C05", "C06", "C08", "C13", "C14"):
         # a share of the cases is asked a second time through the top-level API (lib.rs): what a user of the library gets
         # ... half of them next to an id of another language (preferably a stemming one next to a non-stemming one and vice
